@@ -260,7 +260,7 @@ def token(w, op, u, x, r, path):
     if x is not None and r is x and isinstance(x, w.plain):
         return "other-undefined"
     if isinstance(r, w.plain):
-        if path == "template" and same_fields(r, u):
+        if path.startswith("template") and same_fields(r, u):
             return "itself"
         return "other-value"
     if r is True:
@@ -286,6 +286,12 @@ def token(w, op, u, x, r, path):
 
 # attribute names for the non-dunder getattr cell: a dunder starts AND ends with two underscores
 ATTR_NAMES = {"direct": "some_attribute", "direct-lead": "__lead", "direct-trail": "trail__", "direct-under": "_private"}
+
+
+# keys for the item-access cell: the engine treats string and non-string keys differently (Environment.getitem
+# falls back to getattr for a str key only)
+ITEM_KEYS = {"direct-intkey": 0, "direct-nonekey": None, "direct-tuplekey": (1, 2)}
+ITEM_KEY_SRC = {"template-intkey": "0", "template-nonekey": "none", "template-tuplekey": "(1, 2)", "template-sbx-intkey": "0"}
 
 
 def direct(w, c, op, u, x, variant="direct"):
@@ -330,7 +336,7 @@ def direct(w, c, op, u, x, variant="direct"):
     if k == "getdunder":
         return u.__no_such_dunder__
     if k == "getitem":
-        return u["k"]
+        return u[ITEM_KEYS.get(variant, "k")]
     if k == "isdefined":
         return w.env[c].tests["defined"](u)
     if k == "isundefined":
@@ -427,7 +433,14 @@ def observe(w, c, origin, op, path, msgs):
             v = w.vars(c)
             if o:
                 v["x"] = x
-            if path in ("template-native", "template-native-async"):
+            if path in ITEM_KEY_SRC:
+                expr_src = ORIGINS[origin] + "[" + ITEM_KEY_SRC[path] + "]"
+                env = (w.env_sbx if (path.startswith("template-sbx") or origin == "unsafe") else w.env)[c]
+                key = (c, "X", expr_src, path)
+                if key not in w.cache:
+                    w.cache[key] = env.compile_expression(expr_src, undefined_to_none=False)
+                r = w.cache[key](**v)
+            elif path in ("template-native", "template-native-async"):
                 # a native environment with SEVERAL output nodes prints every node (a lone node would be returned)
                 r = w.tmpl(c, "<<" + src + ">>", path[len("template-"):]).render(**v)
                 if not (isinstance(r, str) and r.startswith("<<") and r.endswith(">>")):
@@ -767,6 +780,8 @@ def run(ctx):
                 cells.append((c, origin, op, "direct"))
                 if op == "getattr":
                     cells += [(c, origin, op, v) for v in ("direct-lead", "direct-trail", "direct-under")]
+                if op == "getitem":
+                    cells += [(c, origin, op, v) for v in list(ITEM_KEYS) + list(ITEM_KEY_SRC)]
                 if op in ("str", "bool") and origin != "unsafe":
                     cells.append((c, origin, op, "template-async"))     # the same template in an enable_async environment
                     cells.append((c, origin, op, "template-native"))    # ... printed inside a multi-node native template
